@@ -205,6 +205,23 @@ CLAIMS["C17"] = (
     "DESIGN.md section 5 C17",
 )
 
+CLAIMS["C18"] = (
+    "role location + guard truth tables (attempt, starter, mDNS filter, scheduler); lock-context analysis (lexical regions + lock-held fixpoint over call sites); MUST dataflow of a lock-stable not-stopped fact; constant folding of the back-off expression over n=1..200; disjunctive outcome/report counting",
+    "Decides statically on reconnect_logic.py: the client's connect phases are called only from the attempt function, whose single call site is "
+    "under the manager lock and reached iff DISCONNECTED and not stopped with no suspension since the test; the starter creates an attempt task "
+    "iff none runs or the running one is still CONNECTING (then cancel + reset first) and never cancels a handshaking/connected attempt (R1); "
+    "state, stop flag and record-accept flag have exactly their specified writers, locked setter only under the lock, accept flag == state in "
+    "{DISCONNECTED, CONNECTING} (R2); the retry delay, evaluated by the checker for every failure count 1..200, equals min(round(1.8^n), 60), "
+    "auth/encryption errors (exactly three classes) give 60 s, success/start reset the count, expected disconnect 5.0 s, unexpected 0, mDNS 0, "
+    "zero delay starts at once, positive delay replaces the single timer at now+delay (R3); stop() under the lock sets the flag, cancels timer "
+    "and task, removes the listener and sets DISCONNECTED without suspending, then closes zeroconf; every site that starts an attempt, "
+    "schedules one or starts listening holds a valid not-stopped fact; the mDNS filter triggers iff accepting, not stopped and PTR-alias/A-name "
+    "match, once per batch (R4); on_connect only after both phases + READY under the lock, on_disconnect only in the stop hook under the lock, "
+    "every failed attempt reported once with its error (R5). Retry instants in virtual time and alternation over all histories as behaviour "
+    "are not decided.",
+    "DESIGN.md section 5 C18",
+)
+
 UNDER_CONSTRUCTION = "rule set not built yet in this round (see DESIGN.md section 5 for the planned static rules)"
 
 NOT_APPLICABLE = {}
